@@ -221,6 +221,11 @@ class Sweep(object):
         self.Element = element.Element
         self.values = {}
         self.reported = {}
+        self.first_children = []
+        self.first_text = []
+        self.first_ctor = {}
+        self.first_attrs = []
+        self.loaded = None
 
     # ---- schema decisions, by id
     def schema_child(self, p, c):
@@ -251,6 +256,14 @@ class Sweep(object):
                 return
         self.chk.fail(sig, case, detail)
 
+    def history_fail(self, what, calls, detail):
+        """the outcome of a call depended on earlier calls: a violation whose replay is the call history"""
+        self.reported['history'] = self.reported.get('history', 0) + 1
+        self.chk.count('history_dependent_decisions')
+        if self.reported['history'] > 8:
+            return
+        self.chk.fail('history:' + what, {'op': 'history', 'calls': calls}, detail)
+
     # ---- addElement
     def children(self):
         chk, V, drv, Element = self.chk, self.V, self.drv, self.Element
@@ -263,44 +276,60 @@ class Sweep(object):
             qp = Q[p]
             mo = model_on[p].split()[1]; mf = model_off[p].split()[1]
             filled = Element(qname=qp, check_grammar=False)
-            off = Element(qname=qp, check_grammar=False)
             sany = -1 in V.S[p]['ch']; sch = V.S[p]['ch']
             row_diff = []
+            first = []
             for c in range(n):
                 qc = Q[c]
-                # (1) empty parent, (2) parent that already has children, (3) checks off
+                # one history per pair, fresh elements for every call (only `filled` is shared along the row):
+                #   checked on an empty parent, checked on a filled parent, UNCHECKED, checked again, checked through parent=
+                # The decision must be a function of (tables, arguments): the two last calls must repeat the first.
                 obs = []
-                for parent, check in ((Element(qname=qp, check_grammar=False), True), (filled, True), (off, False)):
-                    child = Element(qname=qc, check_grammar=False)
+                for step in range(5):
+                    parent = filled if step == 1 else Element(qname=qp, check_grammar=False)
                     try:
-                        if check:
-                            parent.addElement(child)
+                        if step == 4:
+                            child = Element(qname=qc, check_grammar=False, parent=parent)
                         else:
-                            parent.addElement(child, check_grammar=False)
-                        r = '.'
-                        if child.parentNode is not parent:
-                            r = '?'
+                            child = Element(qname=qc, check_grammar=False)
+                            if step == 2:
+                                parent.addElement(child, check_grammar=False)
+                            else:
+                                parent.addElement(child)
+                        r = '.' if child.parentNode is parent else '?'
                     except IllegalChild:
                         r = 'C'
                     except Exception as e:
                         r = 'X' + type(e).__name__
                     obs.append(r)
+                first.append(obs[0] if len(obs[0]) == 1 else 'X')
                 if c == 0 and not filled.childNodes:
                     filled.addElement(Element(qname=qc, check_grammar=False), check_grammar=False)
-                chk.corr(3)
-                if obs[0] != mo[c] or obs[1] != mo[c] or obs[2] != mf[c]:
-                    chk.corr_diff({'op': 'addElement', 'parent': V.EN[p], 'child': V.EN[c]}, obs, [mo[c], mo[c], mf[c]],
-                                  'addElement on an empty parent / a filled parent / with check_grammar=False (. accepted, C IllegalChild)')
+                chk.corr(5)
+                want_model = [mo[c], mo[c], mf[c], mo[c], mo[c]]
+                if obs != want_model:
+                    chk.corr_diff({'op': 'addElement', 'parent': V.EN[p], 'child': V.EN[c]}, obs, want_model,
+                                  'addElement: checked on an empty parent / checked on a filled parent / check_grammar=False / checked again / through parent= '
+                                  '(. accepted, C IllegalChild)')
+                if obs[3] != obs[0] or obs[4] != obs[0]:
+                    self.history_fail('children:%s>%s' % (V.EN[p], V.EN[c]),
+                                      [{'op': 'addElement', 'parent': V.EN[p], 'child': V.EN[c], 'check_grammar': True, 'observed': obs[0]},
+                                       {'op': 'addElement', 'parent': V.EN[p], 'child': V.EN[c], 'check_grammar': False, 'observed': obs[2]},
+                                       {'op': 'addElement', 'parent': V.EN[p], 'child': V.EN[c], 'check_grammar': True, 'observed': obs[3]},
+                                       {'op': 'addElement', 'parent': V.EN[p], 'child': V.EN[c], 'check_grammar': True, 'via': 'parent=', 'observed': obs[4]}],
+                                      'the same checked addElement(%s) on a fresh <%s> gave %s before and %s / %s (parent=) after an unchecked call of the same pair'
+                                      % (V.EN[c], V.EN[p], obs[0], obs[3], obs[4]))
                 want = sany or (c in sch)
-                for k, o in enumerate(obs[:2]):
+                for k, o in ((0, obs[0]), (1, obs[1]), (0, obs[3]), (0, obs[4])):
                     if (o == '.') != want or o not in '.C':
                         row_diff.append((c, o, want, k))
                         break
                 if obs[2] != '.':
                     chk.fail('unchecked:children:%s>%s' % (V.EN[p], V.EN[c]), {'op': 'addElement', 'parent': V.EN[p], 'child': V.EN[c], 'check_grammar': False},
                              'addElement(check_grammar=False) did not accept the child: %s' % obs[2])
+            self.first_children.append(''.join(first))
             chk.case(('children', p), nontrivial=V.S[p]['elem'], sample={'parent': V.EN[p], 'accepted': mo.count('.'), 'of': n} if p % 97 == 0 else None)
-            chk.count('addElement_calls', 3 * n)
+            chk.count('addElement_calls', 5 * n)
             if (mo.count('.') == n) != sany and [d for d in row_diff if d[0] < n]:
                 # one side has no list at all (anything goes): a difference of the whole row, not of single pairs
                 c, o, want, k = row_diff[0]
@@ -337,12 +366,33 @@ class Sweep(object):
                 except Exception as ex:
                     r = 'err ' + classify(ex)
                 obs.append(r)
-            chk.corr(4)
-            if obs != ans[4 * e:4 * e + 4]:
-                chk.corr_diff({'op': 'addText/addCDATA', 'element': V.EN[e]}, obs, ans[4 * e:4 * e + 4], 'addText, addCDATA, and both with check_grammar=False')
+            # history: the checked calls again after the unchecked ones, and through the text= / cdata= constructor arguments
+            for op in ('addText', 'addCDATA', 'text=', 'cdata='):
+                try:
+                    if op.endswith('='):
+                        el = Element(qname=Q[e], check_grammar=False, **{op[:-1]: u'x'})
+                    else:
+                        el = Element(qname=Q[e], check_grammar=False)
+                        getattr(el, op)(u'x')
+                    r = 'ok' if (len(el.childNodes) == 1 and el.childNodes[0].nodeType == (3 if op in ('addText', 'text=') else 4)) else 'err NoNode'
+                except Exception as ex:
+                    r = 'err ' + classify(ex)
+                obs.append(r)
+            self.first_text.append(tuple(obs[:2]))
+            chk.corr(8)
+            m4 = ans[4 * e:4 * e + 4]
+            if obs != m4 + m4[:2] + m4[:2]:
+                chk.corr_diff({'op': 'addText/addCDATA', 'element': V.EN[e]}, obs, m4 + m4[:2] + m4[:2],
+                              'addText, addCDATA, both with check_grammar=False, both checked again, text= and cdata= of the constructor')
+            if obs[4:6] != obs[0:2] or obs[6:8] != obs[0:2]:
+                self.history_fail('text:%s' % V.EN[e],
+                                  [{'op': o_, 'element': V.EN[e], 'check_grammar': c_, 'observed': r_} for o_, c_, r_ in
+                                   zip(('addText', 'addCDATA', 'addText', 'addCDATA', 'addText', 'addCDATA', 'text=', 'cdata='),
+                                       (True, True, False, False, True, True, True, True), obs)],
+                                  'checked addText/addCDATA on a fresh <%s>: %s before, %s / %s after the unchecked calls' % (V.EN[e], obs[0:2], obs[4:6], obs[6:8]))
             chk.case(('text', e), nontrivial=V.S[e]['elem'])
             want = V.S[e]['text']
-            for op, o in zip(('addText', 'addCDATA'), obs[:2]):
+            for op, o in zip(('addText', 'addCDATA', 'addText', 'addCDATA', 'text=', 'cdata='), obs[:2] + obs[4:]):
                 if (o == 'ok') != want or o not in ('ok', 'err IllegalText'):
                     self.report('text', e, None, '%s on <%s>: %s; schema %s text' % (op, V.EN[e], o, 'permits' if want else 'does not permit'),
                                 {'op': op, 'element': V.EN[e]})
@@ -350,7 +400,7 @@ class Sweep(object):
             for op, o in zip(('addText', 'addCDATA'), obs[2:]):
                 if o != 'ok':
                     chk.fail('unchecked:text:%s' % V.EN[e], {'op': op, 'element': V.EN[e], 'check_grammar': False}, '%s(check_grammar=False): %s' % (op, o))
-        chk.count('text_calls', 4 * V.n)
+        chk.count('text_calls', 8 * V.n)
 
     # ---- setAttribute by keyword
     def good_value(self, attr_q, el):
@@ -383,6 +433,7 @@ class Sweep(object):
             el = Element(qname=Q[e], check_grammar=False)
             sat = V.S[e]['at']
             accepted_kw = {}
+            first_row = []
             for k in range(V.nk):
                 kw = KN[k]
                 # the value must suit whatever attribute the keyword resolves to; the model says which (tie checked below)
@@ -411,31 +462,50 @@ class Sweep(object):
                 except Exception as ex:
                     r = 'X' + type(ex).__name__
                 chk.corr()
+                first_row.append(r)
                 if r != m[k]:
                     chk.corr_diff({'op': 'setAttribute', 'element': V.EN[e], 'keyword': kw}, r, m[k],
                                   'attribute id stored by setAttribute(keyword) / A = AttributeError')
                 if r not in ('A',):
                     accepted_kw[k] = r
-                if thorough or k % 16 == e % 16:
-                    # unchecked call: resolves the same way, or ValueError from list.index
-                    try:
-                        b2 = set(el.attributes)
-                        el.setAttribute(kw, val, check_grammar=False)
-                        new = [a for a in el.attributes if a not in b2]
-                        r2 = str(aid[new[0]]) if len(new) == 1 and new[0] in aid else 'ok-?'
-                        for a in new:
-                            del el.attributes[a]
-                    except AttributeError:
-                        r2 = 'A'
-                    except ValueError as ex:
-                        r2 = 'V' if 'is not in list' in str(ex) else (mf[k] if mf[k].isdigit() else 'value-refused')
-                    except Exception as ex:
-                        r2 = 'X' + type(ex).__name__
-                    chk.corr()
-                    if r2 != mf[k]:
-                        chk.corr_diff({'op': 'setAttribute', 'element': V.EN[e], 'keyword': kw, 'check_grammar': False}, r2, mf[k],
-                                      'setAttribute(keyword, check_grammar=False)')
-            chk.count('setAttribute_calls', V.nk)
+                # history: the unchecked call (resolves the same way, or ValueError from list.index), then the checked call again
+                try:
+                    b2 = set(el.attributes)
+                    el.setAttribute(kw, val, check_grammar=False)
+                    new = [a for a in el.attributes if a not in b2]
+                    r2 = str(aid[new[0]]) if len(new) == 1 and new[0] in aid else 'ok-?'
+                    for a in new:
+                        del el.attributes[a]
+                except AttributeError:
+                    r2 = 'A'
+                except ValueError as ex:
+                    r2 = 'V' if 'is not in list' in str(ex) else (mf[k] if mf[k].isdigit() else 'value-refused')
+                except Exception as ex:
+                    r2 = 'X' + type(ex).__name__
+                try:
+                    b3 = set(el.attributes)
+                    el.setAttribute(kw, val)
+                    new = [a for a in el.attributes if a not in b3]
+                    r3 = str(aid[new[0]]) if len(new) == 1 and new[0] in aid else 'ok-?'
+                    for a in new:
+                        del el.attributes[a]
+                except AttributeError:
+                    r3 = 'A'
+                except ValueError:
+                    r3 = m[k] if m[k].isdigit() else 'value-refused'
+                except Exception as ex:
+                    r3 = 'X' + type(ex).__name__
+                chk.corr(2)
+                if r2 != mf[k] or r3 != m[k]:
+                    chk.corr_diff({'op': 'setAttribute', 'element': V.EN[e], 'keyword': kw, 'history': 'checked, check_grammar=False, checked'}, [r, r2, r3], [m[k], mf[k], m[k]],
+                                  'setAttribute(keyword): checked / check_grammar=False / checked again')
+                if r3 != r:
+                    self.history_fail('attrs:%s@%s' % (V.EN[e], kw),
+                                      [{'op': 'setAttribute', 'element': V.EN[e], 'keyword': kw, 'check_grammar': c_, 'observed': o_}
+                                       for c_, o_ in ((True, r), (False, r2), (True, r3))],
+                                      'checked setAttribute(%r) on <%s>: %s before and %s after the unchecked call' % (kw, V.EN[e], r, r3))
+            self.first_attrs.append(first_row)
+            chk.count('setAttribute_calls', 3 * V.nk)
             chk.case(('attrs', e), nontrivial=V.S[e]['elem'], sample={'element': V.EN[e], 'keywords_accepted': len(accepted_kw)} if e % 101 == 0 else None)
             # sound: an accepted keyword lands on an attribute the schema permits
             for k, r in sorted(accepted_kw.items()):
@@ -468,10 +538,11 @@ class Sweep(object):
         for e in range(V.n):
             treq = [aid[a] for a in T['required_attributes'].get(Q[e], [])]
             R = list(treq) + sorted(a for a in V.S[e]['must'] if a not in treq)
-            cases.append((e, None, R, True)); cases.append((e, None, [], True)); cases.append((e, None, [], False))
+            # history per case: checked, check_grammar=False, checked again (the repeat must give the first outcome)
+            cases.append((e, None, R, True)); cases.append((e, None, [], True)); cases.append((e, None, [], False)); cases.append((e, None, [], True))
             for r in R:
                 given = [a for a in R if a != r]
-                cases.append((e, r, given, True)); cases.append((e, r, given, False))
+                cases.append((e, r, given, True)); cases.append((e, r, given, False)); cases.append((e, r, given, True))
         ans = drv.batch('ctor %d %d %s' % (1 if chk_on else 0, e, ','.join(map(str, given)) or '-') for e, r, given, chk_on in cases)
         for (e, r, given, chk_on), m in zip(cases, ans):
             probe = Element(qname=Q[e], check_grammar=False)
@@ -500,6 +571,13 @@ class Sweep(object):
                 chk.corr_diff({'op': 'Element()', 'element': V.EN[e], 'given': [V.AN[a] for a in given], 'check_grammar': chk_on}, o, mk,
                               'constructor outcome and the attribute named in the message')
             chk.count('constructor_calls')
+            key = (e, r, tuple(given))
+            if chk_on:
+                if key in self.first_ctor and self.first_ctor[key] != o:
+                    self.history_fail('required:%s@%s' % (V.EN[e], V.AN[r] if r is not None else '-'),
+                                      [{'op': 'Element()', 'element': V.EN[e], 'given': [V.AN[a] for a in given], 'check_grammar': c_} for c_ in (True, False, True)],
+                                      'Element(<%s>) given %s: %s before and %s after the same call with check_grammar=False' % (V.EN[e], [V.AN[a] for a in given], self.first_ctor[key], o))
+                self.first_ctor.setdefault(key, o)
             if not chk_on:
                 if o != 'ok':
                     chk.fail('unchecked:required:%s' % V.EN[e], {'op': 'Element()', 'element': V.EN[e], 'given': [V.AN[a] for a in given], 'check_grammar': False},
@@ -514,6 +592,9 @@ class Sweep(object):
             elif given or not (set(V.S[e]['must']) | set(aid[a] for a in T['required_attributes'].get(Q[e], []))):
                 # everything required (by table and schema) present: must construct
                 if o != 'ok':
+                    self.reported['allgiven'] = self.reported.get('allgiven', 0) + 1
+                    chk.count('complete_element_refused')
+                if o != 'ok' and self.reported['allgiven'] <= 8:
                     chk.fail('required-all-given:%s' % V.EN[e], {'op': 'Element()', 'element': V.EN[e], 'given': [V.AN[a] for a in given]},
                              'constructor refused although every required attribute was given: %s' % o)
 
@@ -608,6 +689,74 @@ class Sweep(object):
                 chk.fail('ctor-keyword:%s@%s' % (V.EN[e], KN[kws[0]]), {'op': 'Element(**kw)', 'element': V.EN[e], 'keywords': [KN[k] for k in kws], 'check_grammar': chk_on},
                          'constructor: %s; setAttribute refuses %s' % (o, 'nothing' if first_refused is None else repr(KN[first_refused])))
 
+    # ---- the same decisions after a load() has run in this process
+    def after_load(self):
+        """load() attaches every node with check_grammar=False.  Afterwards every checked decision must be what it was."""
+        chk, V, Element = self.chk, self.V, self.Element
+        IllegalChild = self.element.IllegalChild
+        Q = V.G.elems.items; AQ = V.G.attrs.items; KN = V.KN
+        aid = V.G.attrs.ids
+        desc = load_sample_packages()
+        chk.count('packages_loaded', len(desc))
+        hist0 = {'op': 'load', 'packages': desc}
+        n = V.n
+        for p in range(n):
+            row = self.first_children[p]
+            for c in range(n):
+                try:
+                    Element(qname=Q[p], check_grammar=False).addElement(Element(qname=Q[c], check_grammar=False)); r = '.'
+                except IllegalChild:
+                    r = 'C'
+                except Exception:
+                    r = 'X'
+                if r != row[c]:
+                    self.history_fail('children:%s>%s' % (V.EN[p], V.EN[c]),
+                                      [{'op': 'addElement', 'parent': V.EN[p], 'child': V.EN[c], 'check_grammar': True, 'observed': row[c]}, hist0,
+                                       {'op': 'addElement', 'parent': V.EN[p], 'child': V.EN[c], 'check_grammar': True, 'observed': r}],
+                                      'checked addElement(%s) on a fresh <%s>: %s before and %s after load()' % (V.EN[c], V.EN[p], row[c], r))
+        chk.corr(n * n); chk.count('addElement_calls_after_load', n * n)
+        for e in range(n):
+            obs = []
+            for op in ('addText', 'addCDATA'):
+                try:
+                    getattr(Element(qname=Q[e], check_grammar=False), op)(u'x'); obs.append('ok')
+                except Exception as ex:
+                    obs.append('err ' + classify(ex))
+            if tuple(obs) != self.first_text[e]:
+                self.history_fail('text:%s' % V.EN[e], [{'op': 'addText', 'element': V.EN[e], 'check_grammar': True, 'observed': self.first_text[e][0]}, hist0,
+                                                        {'op': 'addText', 'element': V.EN[e], 'check_grammar': True, 'observed': obs[0]}],
+                                  'checked addText/addCDATA on a fresh <%s>: %s before and %s after load()' % (V.EN[e], self.first_text[e], obs))
+            el = Element(qname=Q[e], check_grammar=False)
+            for k, r0 in enumerate(self.first_attrs[e]):
+                try:
+                    el.setAttribute(KN[k], self.good_value(AQ[int(r0)], el) if r0.isdigit() else u'1')
+                    r = 'acc'
+                    el.attributes.clear()
+                except AttributeError:
+                    r = 'A'
+                except Exception:
+                    r = 'acc'
+                if (r == 'A') != (r0 == 'A'):
+                    self.history_fail('attrs:%s@%s' % (V.EN[e], KN[k]), [{'op': 'setAttribute', 'element': V.EN[e], 'keyword': KN[k], 'check_grammar': True, 'observed': r0}, hist0,
+                                                                       {'op': 'setAttribute', 'element': V.EN[e], 'keyword': KN[k], 'check_grammar': True, 'observed': r}],
+                                      'checked setAttribute(%r) on <%s>: %s before and %s after load()' % (KN[k], V.EN[e], r0, r))
+        chk.corr(2 * n + n * V.nk); chk.count('setAttribute_calls_after_load', n * V.nk)
+        for (e, r, given), o0 in sorted(self.first_ctor.items(), key=lambda kv: (kv[0][0], -1 if kv[0][1] is None else kv[0][1], kv[0][2])):
+            probe = Element(qname=Q[e], check_grammar=False)
+            try:
+                Element(qname=Q[e], qattributes=dict((AQ[a], self.good_value(AQ[a], probe)) for a in given)); o = 'ok'
+            except AttributeError as ex:
+                mm = re.match(r'Required attribute missing: (\S+) in <', str(ex))
+                o = 'err AttributeError ' + (mm.group(1) if mm else '?')
+            except Exception as ex:
+                o = 'err ' + classify(ex)
+            chk.corr()
+            if o != o0:
+                self.history_fail('required:%s@%s' % (V.EN[e], V.AN[r] if r is not None else '-'),
+                                  [{'op': 'Element()', 'element': V.EN[e], 'given': [V.AN[a] for a in given], 'check_grammar': True}, hist0,
+                                   {'op': 'Element()', 'element': V.EN[e], 'given': [V.AN[a] for a in given], 'check_grammar': True}],
+                                  'Element(<%s>) given %s: %s before and %s after load()' % (V.EN[e], [V.AN[a] for a in given], o0, o))
+
     # ---- factories
     def factories(self):
         chk, V, drv = self.chk, self.V, self.drv
@@ -644,6 +793,33 @@ class Sweep(object):
 
 
 # ---------------------------------------------------------------------------------------------------------------------
+def load_sample_packages():
+    """build a package that contains legal content AND schema-illegal combinations (attached with check_grammar=False, which
+    is also how load() attaches them), save it, load() it; load the shipped example documents as well"""
+    import io, glob
+    from odf.opendocument import OpenDocumentText, load
+    from odf import text, table
+    doc = OpenDocumentText()
+    h = text.H(outlinelevel=1, text=u'heading'); doc.text.addElement(h)
+    p = text.P(text=u'paragraph'); p.addElement(text.Span(text=u'span')); doc.text.addElement(p)
+    inner = text.P(check_grammar=False); p.addElement(inner, check_grammar=False)                    # text:p in text:p
+    t = table.Table(name=u't'); t.addElement(table.TableColumn()); row = table.TableRow(); t.addElement(row)
+    row.addElement(text.Span(check_grammar=False), check_grammar=False)                              # text:span in table:table-row
+    cell = table.TableCell(); row.addElement(cell); cell.addElement(text.P(text=u'cell'))
+    doc.text.addElement(t)
+    lst = text.List(); lst.addText(u'stray text', check_grammar=False); doc.text.addElement(lst)      # text in text:list
+    doc.text.addElement(text.H(check_grammar=False), check_grammar=False)                            # text:h without outline-level
+    buf = io.BytesIO(); doc.save(buf); buf.seek(0)
+    load(buf)
+    desc = ['in-memory text document with text:p>text:p, table:table-row>text:span, text in text:list, text:h without outline-level']
+    for f in sorted(glob.glob(os.path.join(common.REPO, 'tests', 'examples', '*.od?')))[:4]:
+        try:
+            load(f); desc.append(os.path.relpath(f, common.REPO))
+        except Exception as ex:
+            desc.append('%s (load raised %s)' % (os.path.relpath(f, common.REPO), type(ex).__name__))
+    return desc
+
+
 SLICES = ['OdfModel.Props.C06.S%02d' % i for i in range(16)]
 AUX = ['OdfModel.Props.C06.Defs', 'OdfModel.Props.C06.Schema', 'OdfModel.Props.C06.Kw', 'OdfModel.Props.C06.Fuel']
 
@@ -686,6 +862,7 @@ def run(chk, replay=None):
     t = time.time(); sw.constructors(); chk.count('t_ctor_s', round(time.time() - t, 1))
     t = time.time(); sw.constructor_keywords(); chk.count('t_ctorkw_s', round(time.time() - t, 1))
     t = time.time(); sw.factories(); chk.count('t_factories_s', round(time.time() - t, 1))
+    t = time.time(); sw.after_load(); chk.count('t_after_load_s', round(time.time() - t, 1))
     chk.extra_cov['table_sizes'] = {'schema_defines': len(G.defnames), 'elements': V.n, 'schema_elements': sum(1 for s in V.S if s['elem']),
                                     'attributes': V.na, 'keywords': V.nk,
                                     'allowed_children_rows': len(G.py_tables['allowed_children']), 'allows_text': len(G.py_tables['allows_text']),
@@ -707,6 +884,42 @@ def replay_one(chk, V, sw, rp):
     Q = V.G.elems.items
     op = inp.get('op')
     try:
+        if op == 'history':
+            outcomes = []
+            for call in inp['calls']:
+                if call['op'] == 'load':
+                    load_sample_packages(); outcomes.append((call, 'loaded')); continue
+                e = eid[call.get('parent') or call.get('element')]
+                el = Element(qname=Q[e], check_grammar=False)
+                cg = call.get('check_grammar', True)
+                try:
+                    if call['op'] == 'addElement':
+                        if call.get('via') == 'parent=':
+                            Element(qname=Q[eid[call['child']]], check_grammar=False, parent=el)
+                        else:
+                            el.addElement(Element(qname=Q[eid[call['child']]], check_grammar=False), check_grammar=cg)
+                    elif call['op'] in ('addText', 'addCDATA'):
+                        getattr(el, call['op'])(u'x', check_grammar=cg)
+                    elif call['op'] in ('text=', 'cdata='):
+                        Element(qname=Q[e], check_grammar=False, **{call['op'][:-1]: u'x'})
+                    elif call['op'] == 'setAttribute':
+                        try:
+                            el.setAttribute(call['keyword'], u'1', check_grammar=cg)
+                        except ValueError:
+                            pass
+                    elif call['op'] == 'Element()':
+                        probe = Element(qname=Q[e], check_grammar=False)
+                        Element(qname=Q[e], check_grammar=cg,
+                                qattributes=dict((V.G.attrs.items[aidn[a]], sw.good_value(V.G.attrs.items[aidn[a]], probe)) for a in call.get('given', [])))
+                    o = 'accepted'
+                except Exception as ex:
+                    o = 'refused (%s)' % type(ex).__name__
+                outcomes.append((call, o))
+                print('replay: %s check_grammar=%s -> %s' % (dict((k, v) for k, v in call.items() if k not in ('observed', 'check_grammar')), cg, o))
+            checked = [o for c_, o in outcomes if c_['op'] != 'load' and c_.get('check_grammar', True) and c_['op'] not in ('text=', 'cdata=') or c_.get('via')]
+            same = len(set(checked)) <= 1
+            print('replay: the checked calls %s' % ('agree' if same else 'DIFFER: the decision depends on the call history'))
+            return 0 if same else 1
         if op == 'addElement':
             p, c = eid[inp['parent']], eid[inp['child']]
             par = Element(qname=Q[p], check_grammar=False)
